@@ -11,6 +11,7 @@ package router_info
 //@ import "github.com/go-i2p/common/router_identity"
 //@ import "github.com/go-i2p/common/key_certificate"
 //@ import "github.com/go-i2p/common/keys_and_cert"
+//@ import i2pd "github.com/go-i2p/common/data"
 //@ import sig "github.com/go-i2p/common/signature"
 
 //@ loop parseRouterAddresses 0: bounded 1
@@ -40,6 +41,13 @@ package router_info
 //@ contract (ri *RouterInfo) VerifySignature() (ok bool, err error)
 //@   requires ri == nil || RInfoInv(ri)
 //@   ensures @C05 ok ==> err == nil && ri != nil && ri.router_identity != nil && ri.signature != nil && sigvalid(ri.router_identity.KeysAndCert.SigningPublic.Bytes(), RInfoSigned(ri), sig.SigData(*ri.signature))
+//@   modifies nothing
+
+// ---- C07: the identity hash is SHA-256 of exactly the serialised RouterIdentity.
+//@ contract (router_info *RouterInfo) IdentHash() (h i2pd.Hash, err error)
+//@   requires router_info != nil && (router_info.router_identity == nil || router_info.router_identity.KeysAndCert == nil || keys_and_cert.KacInv(router_info.router_identity.KeysAndCert))
+//@   ensures @C07 (err == nil) == (router_info.router_identity != nil && router_info.router_identity.KeysAndCert != nil)
+//@   ensures @C07 err == nil ==> ishash(h, keys_and_cert.KacWire(router_info.router_identity.KeysAndCert))
 //@   modifies nothing
 
 // C09: the RouterIdentity inside an accepted RouterInfo obeys the key-type policy.
